@@ -416,8 +416,14 @@ func main() {
 	out.WriteString("\nend " + spec.Namespace + "\n")
 	dst := filepath.Join(*outRoot, spec.Out)
 	os.MkdirAll(filepath.Dir(dst), 0o755)
-	os.Remove(dst)
-	if err := os.WriteFile(dst, []byte(out.String()), 0o644); err != nil {
+	if old, err := os.ReadFile(dst); err == nil && string(old) == out.String() {
+		return // unchanged: leave the file (and its build products) alone
+	}
+	tmp := dst + fmt.Sprintf(".tmp%d", os.Getpid())
+	if err := os.WriteFile(tmp, []byte(out.String()), 0o644); err != nil {
+		fail(err)
+	}
+	if err := os.Rename(tmp, dst); err != nil {
 		fail(err)
 	}
 }
